@@ -108,6 +108,24 @@ def main(tier, seed):
                     chk.validated += 1
         chk.log('%d rendered path models through the native rename oracle: %d renames accepted and verified (edits = references, whole tokens, same resolution afterwards, same diagnostics, rename back restores), %d refused, %d programs with problems' %
                 (len(progs), nacc, nref, nbad))
+        # labels shared by the first variant and a later one: the edits of a rename are the by-construction occurrence sets
+        o_ = _oracle(binary)
+        lws = c06.single_file_ws(invk.LABEL_TEXT)
+        lent, lerr = invk.inverse_entries(o_, lws)
+        lprobs = [str(lerr)] if lent is None else []
+        if lent is not None:
+            lexp = invk.label_expected()
+            lp, la, lr = invk.check_rename(o_, lws, lent, only=set(lexp.keys()))
+            lprobs += lp
+            for (f_, s_), occ in sorted(lexp.items()):
+                r_ = o_.ask('rename', json.dumps(dict(lws, file=f_, offset=s_, new_name='zz')))
+                eds = set((e_[0], e_[1]) for e_ in (r_.get('rename', {}).get('edits') or [])) if isinstance(r_, dict) else None
+                if eds != set(occ):
+                    lprobs.append('rename of the label at offset %d to zz edits %s; by construction the field is written at %s' % (s_, sorted(eds) if eds is not None else r_, sorted(occ)))
+        if lprobs:
+            chk.violation('rename:variant-labels', 'fixture', 'program %r: %s' % (invk.LABEL_TEXT, lprobs[0][:500]), {'kind': 'fixture', 'text': invk.LABEL_TEXT}, confirmed=True)
+        else:
+            chk.validated += 1
         # native layer 2: enumerated namings of the workspace template
         asg, nq = invk.ws_all_assignments()
         total = len(asg)
